@@ -258,6 +258,87 @@ func longLineInput(fmtName string, salt int64) corpusInput {
 	return corpusInput{fmtName, append([]byte{}, buf.Bytes()...), true}
 }
 
+// structuredCorruptions: valid files with exactly one structural defect in one record / line (the corruption families of the
+// per-format checks), somewhere in the middle: what follows the defect matters (does the iteration stop? resynchronise?)
+func structuredCorruptions(fmtName string, salt int64, n int) []corpusInput {
+	var out []corpusInput
+	r := newRand(salt)
+	add := func(d []byte) { out = append(out, corpusInput{fmtName, append([]byte{}, d...), false}) }
+	for i := 0; len(out) < n && i < 20*n; i++ {
+		switch fmtName {
+		case "fastq":
+			var recs []*fastq.Fastq
+			for j := 2 + r.Intn(3); j > 0; j-- {
+				m := 1 + r.Intn(6)
+				recs = append(recs, &fastq.Fastq{Name: fqBytes(r, r.Intn(4)), Sequence: fqBytes(r, m), Quals: fqBytes(r, m)})
+			}
+			if d, ok := fqCorrupt(r, recs, 1+r.Intn(len(recs)-1), fqKinds[r.Intn(len(fqKinds))], r.Intn(4) == 0); ok {
+				add(d)
+			}
+		case "sam", "samh":
+			var lines [][]byte
+			for j := 2 + r.Intn(3); j > 0; j-- {
+				b := &bytes.Buffer{}
+				samRecord(r).Write(b)
+				lines = append(lines, bytes.TrimSuffix(b.Bytes(), []byte("\n")))
+			}
+			k := r.Intn(len(lines) - 1)
+			if bad := samCorruptLine(r, lines[k], samCorruptions[r.Intn(len(samCorruptions))]); bad != nil {
+				lines[k] = bad
+				add(append(bytes.Join(lines, []byte("\n")), '\n'))
+			}
+		case "bed":
+			nf := 3 + r.Intn(10)
+			var lines [][]byte
+			for j := 3 + r.Intn(3); j > 0; j-- {
+				b := &bytes.Buffer{}
+				bedRecord(r, nf).Write(b)
+				lines = append(lines, bytes.TrimSuffix(b.Bytes(), []byte("\n")))
+			}
+			k := r.Intn(len(lines) - 1)
+			f := bytes.Split(lines[k], []byte("\t"))
+			switch r.Intn(5) {
+			case 0:
+				f[1] = []byte("x1")
+			case 1:
+				f[2] = []byte("")
+			case 2:
+				f = f[:len(f)-1] // another field count than the first line
+			case 3:
+				f = append(f, []byte("7"))
+			default:
+				f[len(f)-1] = append(f[len(f)-1], "z,,"...)
+			}
+			lines[k] = bytes.Join(f, []byte("\t"))
+			add(append(bytes.Join(lines, []byte("\n")), '\n'))
+		case "newick":
+			b := &bytes.Buffer{}
+			for j := 2 + r.Intn(3); j > 0; j-- {
+				nwRandTree(r, 2+r.Intn(6), false).Write(b)
+				b.WriteString("\n")
+			}
+			d := b.Bytes()
+			p := r.Intn(len(d))
+			switch r.Intn(4) {
+			case 0: // drop the first ')' / ';' after p
+				if q := bytes.IndexAny(d[p:], ");"); q >= 0 {
+					d = append(append([]byte{}, d[:p+q]...), d[p+q+1:]...)
+				}
+			case 1:
+				d = append(append(append([]byte{}, d[:p]...), ":x"...), d[p:]...)
+			case 2:
+				d = append(append(append([]byte{}, d[:p]...), '('), d[p:]...)
+			default:
+				d = append(append(append([]byte{}, d[:p]...), ','), d[p:]...)
+			}
+			add(d)
+		default:
+			return out
+		}
+	}
+	return out
+}
+
 // noisy variants: arbitrary bytes and grammar-aware mutations of well-formed inputs (self-consistency only)
 func mutateInput(r interface{ Intn(int) int }, data []byte) []byte {
 	d := append([]byte{}, data...)
